@@ -709,6 +709,30 @@ func (e *Engine) genericLoopHeader(st *State, fr *Frame, b *ssa.BasicBlock) (han
 	if cls == nil || e.unrollAll {
 		return false, false
 	}
+	// candidate invariants nobody has to write (and that therefore do not depend on what a local is called): every
+	// loop-carried variable of type `any` stays non-nil. A candidate that is not inductive is dropped and the function
+	// verified again (verifyFunction), so only proved candidates are ever assumed.
+	if e.autoOff != nil {
+		key := fmt.Sprintf("%s.loop%d", fnName(fr.fn), ord)
+		cls = append([]Clause{}, cls...)
+		for _, in := range b.Instrs {
+			ph, ok := in.(*ssa.Phi)
+			if !ok {
+				break
+			}
+			it, isIface := ph.Type().Underlying().(*types.Interface)
+			if ph.Comment == "" || !isIface || it.NumMethods() != 0 {
+				continue
+			}
+			id := key + "#nn:" + ph.Comment
+			if e.autoOff[id] {
+				continue
+			}
+			if n, err := parseRSL(ph.Comment + " != nil"); err == nil {
+				cls = append(cls, Clause{Kind: "invariant", Node: n, Src: ph.Comment + " != nil", Name: "auto:" + id})
+			}
+		}
+	}
 	// map-range loops over symbolic maps are handled at the Next instruction
 	for _, in := range b.Instrs {
 		if nx, ok := in.(*ssa.Next); ok && !nx.IsString {
@@ -907,6 +931,47 @@ func (e *Engine) evalLoopClauses(st *State, fr *Frame, cls []Clause, iterKey str
 			}
 		}
 	}
+	// name-independent handles on the loop under the clause (so that clauses survive renamed or re-shaped loops):
+	// carried() is the one loop-carried variable of type `any`, itercount() the number of iterations completed
+	// before the current one (from the loop's one unit-step counter, whatever it is called and wherever it starts)
+	var hdr *ssa.BasicBlock
+	if iterKey != "" {
+		var fid, bi int
+		if n, _ := fmt.Sscanf(iterKey, "genloop/%d/%d", &fid, &bi); n == 2 && bi < len(fr.fn.Blocks) {
+			hdr = fr.fn.Blocks[bi]
+		}
+	}
+	special := func(s *State, m map[string]Value) {
+		if hdr == nil || s == nil {
+			return
+		}
+		var anys, counters []Value
+		for _, in := range hdr.Instrs {
+			ph, ok := in.(*ssa.Phi)
+			if !ok {
+				break
+			}
+			v, have := s.rregs(fr)[ph]
+			if !have {
+				continue
+			}
+			if it, ok := ph.Type().Underlying().(*types.Interface); ok && it.NumMethods() == 0 {
+				anys = append(anys, v)
+			}
+			if c, step, ok := counterStartStep(ph); ok && step == 1 {
+				if sv, ok := v.(VSym); ok && sv.T.Sort == SInt {
+					counters = append(counters, sym(Sub(sv.T, IntLit(c))))
+				}
+			}
+		}
+		if len(anys) == 1 {
+			m["carried$"] = anys[0]
+		}
+		if len(counters) == 1 {
+			m["itercount$"] = counters[0]
+		}
+	}
+	special(st, vars)
 	var out []Term
 	for _, cl := range cls {
 		pre := st
@@ -918,6 +983,7 @@ func (e *Engine) evalLoopClauses(st *State, fr *Frame, cls []Clause, iterKey str
 			if h, ok := st.loopHead[iterKey]; ok {
 				env.head = h.clone()
 				env.headVars = localsIn(env.head)
+				special(env.head, env.headVars)
 			}
 			if h, ok := st.loopEntry[iterKey]; ok {
 				env.entry = h.clone()
@@ -1153,10 +1219,15 @@ func (e *Engine) loopTouchesDB(header *ssa.BasicBlock) bool {
 
 // counterStart recognises phi = [c, phi + k] with integer constants c and k > 0 and returns c.
 func counterStart(phi *ssa.Phi) (int64, bool) {
+	c, _, ok := counterStartStep(phi)
+	return c, ok
+}
+
+func counterStartStep(phi *ssa.Phi) (int64, int64, bool) {
 	if len(phi.Edges) != 2 {
-		return 0, false
+		return 0, 0, false
 	}
-	var start int64
+	var start, step int64
 	haveStart, haveStep := false, false
 	for _, ed := range phi.Edges {
 		switch x := ed.(type) {
@@ -1170,11 +1241,11 @@ func counterStart(phi *ssa.Phi) (int64, bool) {
 			if x.Op == token.ADD && x.X == ssa.Value(phi) {
 				if k, ok := x.Y.(*ssa.Const); ok && k.Value != nil && k.Value.Kind() == constant.Int {
 					if v, ok := constant.Int64Val(k.Value); ok && v > 0 {
-						haveStep = true
+						step, haveStep = v, true
 					}
 				}
 			}
 		}
 	}
-	return start, haveStart && haveStep
+	return start, step, haveStart && haveStep
 }
